@@ -32,7 +32,7 @@ theorem unet_rows {f : Nat} (hf : f ∈ [8, 16, 24, 32, 64]) {r : Rate} (hr : r 
     {ms : Nat} (hms : ms ∈ [8, 16, 32]) {stem : Nat} (hstem : stem ∈ [0, 2, 4])
     {bos : Nat} (hbos : bos ∈ strides6) {os : Nat} (hos : os ∈ strides6)
     {cpb : Nat} (hcpb : cpb ∈ [2, 3]) (mid : Bool)
-    (h1 : bos ≤ os) (h2 : 2 * os ≤ ms) (h3 : mid = true ∨ r = ⟨1, 1⟩) :
+    (h1 : bos ≤ os) (h2 : 2 * os ≤ ms) :
     wellFormed (mkUnet f r ms stem bos os cpb mid) = true := by
   have t := tableUnet_all f hf r hr
   simp only [tableUnet, List.all_eq_true] at t
@@ -42,13 +42,7 @@ theorem unet_rows {f : Nat} (hf : f ∈ [8, 16, 24, 32, 64]) {r : Rate} (hr : r 
   rcases this with (h | h) | h
   · exact absurd h1 h
   · exact absurd h2 h
-  · have := h cpb hcpb mid (by cases mid <;> simp [bools])
-    simp only [Bool.or_eq_true, Bool.not_eq_true', Bool.or_eq_false_iff, beq_iff_eq] at this
-    rcases this with ⟨hm, hr'⟩ | h
-    · rcases h3 with h3 | h3
-      · simp [h3] at hm
-      · simp [h3] at hr'
-    · exact h
+  · exact h cpb hcpb mid (by cases mid <;> simp [bools])
 
 theorem tableWrap_all : ∀ fam v, (fam = .convnext ∧ v ∈ [0, 1, 2, 3]) ∨ (fam = .swint ∧ v ∈ [0, 1, 2]) →
     tableWrap fam v = true := by
@@ -66,17 +60,16 @@ theorem tableWrap_all : ∀ fam v, (fam = .convnext ∧ v ∈ [0, 1, 2, 3]) ∨ 
 theorem wrap_rows {fam : Family} {v : Nat}
     (hfv : (fam = .convnext ∧ v ∈ [0, 1, 2, 3]) ∨ (fam = .swint ∧ v ∈ [0, 1, 2]))
     {sps : Nat} (hsps : sps ∈ [2, 4]) {bos : Nat} (hbos : bos ∈ strides6) {os : Nat} (hos : os ∈ strides6)
-    {cpb : Nat} (hcpb : cpb ∈ [1, 2, 3]) (h1 : bos ≤ os) (h2 : 2 * os ≤ sps * 8) (h3 : bos ≤ sps) :
+    {cpb : Nat} (hcpb : cpb ∈ [1, 2, 3]) (h1 : bos ≤ os) (h2 : 2 * os ≤ sps * 8) :
     wellFormed (mkWrap fam v sps bos os cpb) = true := by
   have t := tableWrap_all fam v hfv
   simp only [tableWrap, List.all_eq_true] at t
   have := t sps hsps bos hbos os hos
   simp only [Bool.or_eq_true, Bool.not_eq_true', Bool.and_eq_false_iff, decide_eq_false_iff_not,
     List.all_eq_true] at this
-  rcases this with ((h | h) | h) | h
+  rcases this with (h | h) | h
   · exact absurd h1 h
   · exact absurd h2 h
-  · exact absurd h3 h
   · exact h cpb hcpb
 
 /-- every documented-valid, supported configuration of the grid carries a certificate -/
@@ -86,7 +79,6 @@ theorem grid_wellFormed (c : Cfg) (hin : inGrid c = true) (hdoc : docValid c = t
   simp only [inGrid, Bool.and_eq_true, beq_iff_eq, List.all_eq_true, List.contains_iff_mem] at hin
   simp only [docValid, Bool.and_eq_true, List.all_eq_true, decide_eq_true_eq, Bool.not_eq_true',
     List.isEmpty_eq_false_iff] at hdoc
-  simp only [Bool.not_eq_true'] at hin
   obtain ⟨⟨⟨⟨⟨⟨⟨hinCh, hfm⟩, hfw⟩, hheads⟩, hbos⟩, hcpb⟩, hrate⟩, hfam⟩ := hin
   obtain ⟨hne, hd⟩ := hdoc
   subst hinCh hfm hfw
@@ -94,34 +86,32 @@ theorem grid_wellFormed (c : Cfg) (hin : inGrid c = true) (hdoc : docValid c = t
   intro hd' hhd
   obtain ⟨hle, hle2⟩ := hd hd' hhd
   refine ⟨hle, 0, ?_⟩
-  have key : ∀ u, wellFormed (Cfg.mk fam variant filters rate maxStride bos stem cpb middle u 1 [⟨hd'.os, 0⟩] false false) = true := by
-    apply wellFormed_upInterp (Cfg.mk fam variant filters rate maxStride bos stem cpb middle upInterp 1 [⟨hd'.os, 0⟩] false false)
+  have key : ∀ u, wellFormed (Cfg.mk fam variant filters rate maxStride bos stem cpb middle u 1 [⟨hd'.os, 0⟩] true true) = true := by
+    apply wellFormed_upInterp (Cfg.mk fam variant filters rate maxStride bos stem cpb middle upInterp 1 [⟨hd'.os, 0⟩] true true)
     have hos := hheads hd' hhd
     cases fam with
     | unet =>
       simp only [Bool.and_eq_true, beq_iff_eq, List.contains_iff_mem] at hfam
       obtain ⟨⟨⟨hv, hf⟩, hms⟩, hst⟩ := hfam
       subst hv
-      simp only [supported, Bool.and_eq_true, decide_eq_true_eq, Bool.or_eq_true, beq_iff_eq] at hsup
+      simp only [supported, decide_eq_true_eq] at hsup
       have hcpb' : cpb ∈ [2, 3] := by
         simp only [List.mem_cons, List.not_mem_nil, or_false] at hcpb ⊢; omega
-      exact unet_rows hf hrate hms hst hbos hos hcpb' middle hle (by simpa [Cfg.realMaxStride] using hle2) hsup.2
+      exact unet_rows hf hrate hms hst hbos hos hcpb' middle hle (by simpa [Cfg.realMaxStride] using hle2)
     | convnext =>
       simp only [Bool.and_eq_true, beq_iff_eq, List.contains_iff_mem] at hfam
       obtain ⟨⟨⟨⟨hv, hf⟩, hst⟩, hms⟩, hmid⟩ := hfam
       subst hf hms hmid
-      simp only [supported, Bool.and_eq_true, decide_eq_true_eq, beq_iff_eq] at hsup
-      obtain ⟨hr, hbs⟩ := hsup
-      subst hr
-      exact wrap_rows (Or.inl ⟨rfl, hv⟩) hst hbos hos hcpb hle (by simpa [Cfg.realMaxStride] using hle2) hbs
+      simp only [supported, beq_iff_eq] at hsup
+      subst hsup
+      exact wrap_rows (Or.inl ⟨rfl, hv⟩) hst hbos hos hcpb hle (by simpa [Cfg.realMaxStride] using hle2)
     | swint =>
       simp only [Bool.and_eq_true, beq_iff_eq, List.contains_iff_mem] at hfam
       obtain ⟨⟨⟨⟨hv, hf⟩, hst⟩, hms⟩, hmid⟩ := hfam
       subst hf hms hmid
-      simp only [supported, Bool.and_eq_true, decide_eq_true_eq, beq_iff_eq] at hsup
-      obtain ⟨hr, hbs⟩ := hsup
-      subst hr
-      exact wrap_rows (Or.inr ⟨rfl, hv⟩) hst hbos hos hcpb hle (by simpa [Cfg.realMaxStride] using hle2) hbs
+      simp only [supported, beq_iff_eq] at hsup
+      subst hsup
+      exact wrap_rows (Or.inr ⟨rfl, hv⟩) hst hbos hos hcpb hle (by simpa [Cfg.realMaxStride] using hle2)
   exact key upInterp
 
 end SleapVerif.Arch
